@@ -1,6 +1,5 @@
-(* Tie (C11): allowed complexity types; the window-position arithmetic of
-   get_indexed_complexity_vector translated from the source equals the model's positions for every
-   1 <= K <= N <= 60 (np.arange(start, end, spacing) has exactly K elements there); loop shapes. *)
+(* Tie (C11): allowed complexity types.  (The window-position arithmetic of get_indexed_complexity_vector and the
+   shape of get_WF/LC/LZW_complexity are tied for every input in minipy_cxglue_tie.v.) *)
 From Coq Require Import List ZArith Bool String.
 From LC Require Import Core.Residue Core.QTools Model.Complexity Gen.GAlphabets Gen.GParams.
 Import ListNotations.
@@ -9,13 +8,3 @@ Local Open Scope Z_scope.
 Lemma complexity_types_tie : g_complexity_types = ["WF"; "LC"; "LZW"]%string.
 Proof. reflexivity. Qed.
 
-Lemma loops_tie : g_complexity_loops_ok = true.
-Proof. reflexivity. Qed.
-
-(* arange(a, b, s) with s > 0 *)
-Definition arange (a b s : Z) : list Z := map (fun i => a + Z.of_nat i * s) (seq 0 (Z.to_nat ((b - a + s - 1) / s))).
-
-Lemma positions_tie :
-  forallb (fun N => forallb (fun K =>
-     lzs_eqb (arange (g_index_start N K) (g_index_end N K) (g_spacing N K)) (positions N K)) (zrange 1 N)) (zrange 1 60) = true.
-Proof. vm_compute. reflexivity. Qed.
